@@ -133,9 +133,16 @@ class _RetryBase(Contract):
         if not isinstance(node, __import__("ast").While):
             return None
 
+        # the attempt counter is identified by its role (the local incremented in the loop), not by its name
+        counters = sorted({n.target.id for n in __import__("ast").walk(node)
+                           if isinstance(n, __import__("ast").AugAssign) and isinstance(n.target, __import__("ast").Name)})
+        if len(counters) != 1:
+            raise Unsupported(f"cannot identify the attempt counter of the retry loop (candidates: {counters})")
+        counter = counters[0]
+
         def inv(it, env, k):
             g = it.st.ghost
-            att = env.lookup("attempt")
+            att = env.lookup(counter)
             calls = g["calls"]
             j = z3.Int("j!inv")
             out = [("attempt-is-calls", z3.And(V.is_int(att), V.ival(att) == calls)),
